@@ -54,6 +54,9 @@ def run(ch, params, decoded=False):
             continue
         prog = op["prog"]
         exp = ref.run_model(prog)
+        if exp["result"][0] == "toobig":
+            stats["skipped:program_too_large"] = stats.get("skipped:program_too_large", 0) + 1
+            continue
         model = exp["model"]
         classes = emit.build_classes(prog)
         budget = params["budget_mult"] * max(1, model.node_renders) + 300_000
